@@ -742,6 +742,25 @@ impl World {
                 })?;
                 self.sh.objs[op.a as usize].leaf = None;
             }
+            K::AdoptLeaf => {
+                if credit_path(op.a) {
+                    self.credit_calls += 1;
+                }
+                let l = self.sh.objs[op.c as usize].leaf.expect("leaf");
+                self.with_mutate(|w, mc, _, m| {
+                    let p = w.node(m, op.b);
+                    let lg = w.node(m, op.c).leaf.get().unwrap();
+                    match op.a {
+                        1 => mc.backward_barrier(Gc::erase(p), Some(Gc::erase(lg))),
+                        2 => mc.backward_barrier(Gc::erase(p), None),
+                        3 => mc.forward_barrier(Some(Gc::erase(p)), Gc::erase(lg)),
+                        _ => mc.forward_barrier(None, Gc::erase(lg)),
+                    }
+                    unsafe { p.leaf.as_cell().set(Some(lg)) };
+                    Ok(())
+                })?;
+                self.sh.objs[op.b as usize].leaf = Some(l);
+            }
             K::LeafBarrier => {
                 if credit_path(op.a) {
                     self.credit_calls += 1;
@@ -855,6 +874,23 @@ impl World {
                 let Caught::Done(h) = guarded("DynamicRoot::clone", || hs.href(op.a as usize).unwrap().clone())? else { unreachable!() };
                 self.hs[op.b as usize] = Some(h);
                 self.sh.handles[op.b as usize] = self.sh.handles[op.a as usize];
+            }
+            K::StashLeaf => {
+                let l = self.sh.objs[op.b as usize].leaf.expect("leaf");
+                let r = self.with_mutate(|w, mc, root, m| {
+                    let set: DynamicRootSet = root.sets[op.c as usize].unwrap();
+                    let lg = w.node(m, op.b).leaf.get().unwrap();
+                    Ok(talloc::subject(|| set.stash::<Rootable![RefLock<Leaf>]>(mc, lg)))
+                })?;
+                let Caught::Done(h) = r else { viol!("api.panic", "unexpected injected panic") };
+                self.hl[op.a as usize] = Some(h);
+                self.sh.lhandles[op.a as usize] = Some((l, op.c));
+                self.cov.bump("stash_of_a_non_tracing_object");
+            }
+            K::DropHL => {
+                let h = self.hl[op.a as usize].take();
+                guarded("DynamicRoot::drop", move || drop(h))?;
+                self.sh.lhandles[op.a as usize] = None;
             }
             K::CloneFromH => {
                 let src = self.hs[op.a as usize].take().expect("source handle");
